@@ -206,7 +206,7 @@ def linform(fl, e, at, atoms, depth=0):
     return None
 
 
-def r09_2(rep, M, rid):
+def r09_2(rep, M, rid, only_first=False):
     fn = M.func(FQ)
     fl = Flow(fn)
     thr = M.params(FQ)[1]
@@ -238,7 +238,10 @@ def r09_2(rep, M, rid):
     calls = [(n, c) for n, d in fl.cfg.g.nodes(data=True) if d["ast"] is not None
              for c in walk_own(d["ast"]) if isinstance(c, ast.Call) and DISP in M.callees_of_call(FQ, c)]
     dparams = M.params(DISP)
+    calls.sort(key=lambda nc: (nc[1].lineno, nc[1].col_offset))
     for i, (n, c) in enumerate(calls):
+        if only_first and i > 0:
+            break
         cut = next((k.value for k in c.keywords if k.arg == "cutoff"), None)
         if cut is None and len(c.args) > dparams.index("cutoff"):
             cut = c.args[dparams.index("cutoff")]
@@ -257,6 +260,8 @@ def r09_2(rep, M, rid):
             rep.violation(rid, construct, f"cutoff = {shown}; a bonded pair (d - r_i - r_j <= threshold) can be as far apart as "
                           "threshold + 2*max(radii), pairs beyond the cutoff are reported infinite, so bonds are lost",
                           M.where(FQ, c))
+    if only_first:
+        return
     # clip bound and eps in get_clusters
     fn2 = M.func(CLUST)
     fl2 = Flow(fn2)
@@ -441,7 +446,7 @@ def r09_3(rep, M, rid):
         rep.violation(rid, "get_dimensionality: non-periodic branch", "a connected non-periodic system does not get 0", M.where(FQ))
 
 
-def r09_6(rep, M, rid):
+def r09_6(rep, M, rid, only_first=False):
     """the cell of every minimum-image search is the cell of the very object whose (wrapped) positions are searched, unmodified: the
     atoms were wrapped in that basis, and the search is only exact for atoms inside the cell it is given"""
     fn = M.func(FQ)
@@ -476,7 +481,10 @@ def r09_6(rep, M, rid):
                 return None if not mods else ("?", "?", mods, at)
             return None
         return None
+    calls.sort(key=lambda c: (c.lineno, c.col_offset))
     for i, c in enumerate(calls):
+        if only_first and i > 0:
+            break
         b = M.bind_args(DISP, c)
         at = fl.node_of(c)
         pc, cc = source(b.get("positions"), at), source(b.get("cell"), at)
@@ -532,7 +540,7 @@ def run(rep, ctx):
     rep.rule("R09.7", "no function keeps results in module-level state or functools caches (answers do not depend on what the process analysed before)")
     with rep.guard("R09.7"):
         from .. import symrules as _SRms
-        _SRms.module_state(rep, ctx.model, "R09.7")
+        _SRms.module_state(rep, ctx.model, "R09.7", _SRms.GEOMETRY_SIDE)
     rep.floor("R09.1", 2)
     rep.floor("R09.2", 4)
     rep.floor("R09.3", 9)
